@@ -809,8 +809,8 @@ def main(chk: Check) -> None:
     quick = chk.tier == 'quick'
     rnd = random.Random(chk.seed)
     kinds = ALL_KINDS if not quick else [ALL_KINDS[(chk.seed + i) % 6] for i in (0, 2, 3)]
-    n_cli = 48 if quick else 1000
-    n_api = 1500 if quick else 12000
+    n_cli = 64 if quick else 1000
+    n_api = 2000 if quick else 12000
     chk.rule = ('A1: every case exported by the TLC model replayed in-process on a real OptionStore; A2: cases merged '
                 '(~13 per generated project) through the real CLI; B: random API call sequences. Non-trivial = at '
                 'least two sources give the option, or a value is invalid (distinct case ids / call sequences).')
